@@ -140,6 +140,15 @@ impl LogicalLineFileFormatter for OptimisingLineFormatter {
                 olf.reconstruct_solution(&solution, line.1);
             }
         }
+
+        // The second round of wrapping may have moved further tokens to the starts of lines.
+        for token_index in 0..olf.formatted_tokens.len() {
+            if let Some(data) = olf.formatted_tokens.get_formatting_data_mut(token_index) {
+                if data.newlines_before > 0 {
+                    data.spaces_before = 0;
+                }
+            }
+        }
     }
 }
 impl OptimisingLineFormatter {
